@@ -356,3 +356,37 @@ def point_of(sol, lp):
         if j in lp['colmap']:
             pt[j] = sol[lp['colmap'][j]]
     return pt
+
+
+def selftest():
+    """hand-computed problems: value of the epigraph LP, evaluation at its solution, dual function at its multipliers."""
+    from . import lpexact
+    X, Y = ['v', 'x'], ['v', 'y']
+    probs = [
+        # minimize |x - 1| + y0 + y1  s.t.  |y| <= 2 (componentwise), x + y0 + y1 == 0      -> objective |x-1| - x, any x in [1, 4]: value -1
+        ({'obj': ['+', ['abs', ['-', X, ['c', 1]]], ['sum', Y]],
+          'cons': [[['abs', Y], '<=', ['c', 2]], [['+', X, ['sum', Y]], '==', ['c', 0]]]}, Fr(-1)),
+        # minimize max(x, y0 - y1, 0) s.t. sum(abs(y)) <= 1, x >= y0 + 2   -> y0 = -1, x = 1: value 1
+        ({'obj': ['max', X, ['-', ['i', 'y', 0], ['i', 'y', 1]], ['c', 0]],
+          'cons': [[['sum', ['abs', Y]], '<=', ['c', 1]], [X, '>=', ['+', ['i', 'y', 0], ['c', 2]]]]}, Fr(1)),
+        # minimize max over components of (y + (1, 0)) s.t. y >= -1   -> y = (-1, -1): value 0
+        ({'obj': ['vmax', ['+', Y, ['cm', [1, 0]]]], 'cons': [[Y, '>=', ['c', -1]]]}, Fr(0)),
+    ]
+    for prob, want in probs:
+        L = epigraph_lp(prob)
+        r = lpexact.solve(L['c'], L['G'], L['h'], L['A'], L['b'])
+        assert r['status'] == 'optimal' and r['value'] + L['d'] == want, (prob, r)
+        pt = point_of(r['x'], L)
+        assert ev(prob['obj'], pt)[0] == want
+        zi, yi, lam = iter(r['z']), iter(r['y']), []
+        for con in prob['cons']:
+            m = length(cfun(con))
+            lam.append([next(zi) for _ in range(m)] if ctype(con) == '<' else [next(yi) for _ in range(m)])
+        LL = lagrangian_lp(prob, lam, [0, 0, 0, 0], Fr(5))
+        g = lpexact.solve(LL['c'], LL['G'], LL['h'], LL['A'], LL['b'])
+        assert g['status'] == 'optimal' and g['value'] + LL['d'] == want, (prob, g)
+    return len(probs)
+
+
+if __name__ == '__main__':
+    print('pwl selftest ok, %d problems' % selftest())
